@@ -520,6 +520,104 @@ def run_models(run: Run, rng, n_models: int, *, ia_bias: float, tag: str):
     return cases, keys, dist
 
 
+# ---------------------------------------------------------------------------------------
+# data sets exchanged through the public API (closing round, seeded C01-9)
+# ---------------------------------------------------------------------------------------
+
+
+def apply_data_updates(desc, ups):
+    d2 = {k: list(v) for k, v in desc.items()}
+    new = dict(ups)
+    d2["dat"] = [(n, new.get(n, v)) for n, v in desc["dat"]]
+    return d2
+
+
+def seq_data_updates(desc, rounds, points, modes) -> tuple[str | None, list]:
+    """Build, ask (the cache exists from then on), then per round: Model.update_data for the listed data sets and
+    NOTHING else, ask again at every point.  A model whose data set was exchanged is again a well-formed model: every
+    quantity is its function of the values its arguments have NOW, so the answers are judged against the description
+    holding the new data (independent evaluator).  -> (what is wrong | None, [(desc_k, t, s, obs)] for the correspondence)"""
+    m = modelgen.build(desc)
+    seen = []
+    cur = desc
+    for k, ups in enumerate([[]] + list(rounds)):
+        for n, v in ups:
+            m.update_data(nm(n), v)
+        cur = apply_data_updates(cur, ups)
+        orc = Oracle(cur)
+        for (t, s), (mode, extra) in zip(points, modes):
+            try:
+                obs = observe(m, cur, t, s, mode, extra)
+                bad = judge(cur, orc, t, s, obs)
+            except Exception as e:  # noqa: BLE001
+                bad = f"well-formed model raised {type(e).__name__}: {e}"
+            if bad:
+                if k == 0:
+                    return f"[model with data sets, t={t}, state={s}] {bad}", seen
+                hist = "; then ".join(f"update_data {[(nm(n), v) for n, v in u]}" for u in rounds[:k])
+                return (f"after {hist} on a model that was queried before (no other edit in between), at t={t}, state={s}: {bad} "
+                        f"-- data sets now held: {cur['dat']}, data-only derived quantities: {[nm(x) for x in modelgen.data_only_names(cur)]}"), seen
+            seen.append((cur, t, s, obs))
+    return None, seen
+
+
+def run_data_updates(run: Run, n_models: int):
+    """Own random stream ("c01-data"): the main stream of run_models is untouched."""
+    rng = common.rng_for(run.seed, "c01-data")
+    cases, keys = [], []
+    dist = {"models": 0, "discarded_unbounded": 0, "rounds": 0, "data_only_derived": 0, "chained_data_only": 0,
+            "assignment_reads_data": 0, "data_and_state_derived": 0}
+    n_viol = 0
+    for i in range(n_models):
+        desc = modelgen.plant_data_readers(rng, modelgen.gen_model(rng, ia_bias=0.25, max_comp=5))
+        points = [(0, None), modelgen.gen_state(rng, desc)]
+        if rng.random() < 0.4:
+            points.append((rng.randint(1, 4), None))
+        modes = [(rng.choice(KEY_MODES), False) for _ in points]
+        dats = [n for n, _ in desc["dat"]]
+        rounds = []
+        cur = dict(desc["dat"])
+        for _ in range(rng.choice([1, 1, 2])):
+            ups = []
+            for n in rng.sample(dats, rng.randint(1, len(dats))):
+                v = rng.choice([x for x in range(-3, 4) if x != cur[n]])
+                cur[n] = v
+                ups.append((n, v))
+            rounds.append(ups)
+        ok = True
+        d = desc
+        for ups in [[]] + rounds:
+            d = apply_data_updates(d, ups)
+            ok = ok and bounded(Oracle(d), points)
+        if not ok:
+            dist["discarded_unbounded"] += 1
+            continue
+        dist["models"] += 1
+        dist["rounds"] += len(rounds)
+        only = modelgen.data_only_names(desc)
+        dist["data_only_derived"] += len(only)
+        dist["chained_data_only"] += any(set(a) & set(only) for n, _, a in desc["der"] if n in only)
+        dset = set(dats)
+        dist["assignment_reads_data"] += any(v[0] == "ia" and set(v[2]) & dset for _, v in desc["par"] + desc["var"])
+        dist["data_and_state_derived"] += any(set(a) & dset and n not in only for n, _, a in desc["der"])
+        run.count_case(("c01data", repr(desc), repr(rounds), repr(points)), nontrivial=True)
+        try:
+            bad, seen = seq_data_updates(desc, rounds, points, modes)
+        except Exception as e:  # noqa: BLE001
+            bad, seen = f"data-set sequence on a well-formed model raised {type(e).__name__}: {e}", []
+        if bad:
+            if n_viol < 3:
+                n_viol += 1
+                run.violation(f"C01 {bad}", {"kind": "c01data", "desc": desc, "rounds": rounds, "points": points, "modes": modes})
+            continue
+        for dk, t, s, obs in seen[len(points):]:  # the answers AFTER the exchanges go to the Coq correspondence too
+            cases.append(coq_case(dk, t, s, obs))
+            keys.append((dk, t, s))
+        if i == 0:
+            run.sample({"model_with_data": desc, "data_updates": rounds, "points": points})
+    return cases, keys, dist
+
+
 def apply_updates(desc, ups):
     d2 = {k: list(v) for k, v in desc.items()}
     new = dict(ups)
@@ -529,7 +627,9 @@ def apply_updates(desc, ups):
 
 def check(run: Run) -> None:
     thorough = run.tier == "thorough"
-    run.coverage["gen_facts"] = gen()
+    from harness import c13  # late import (c13 imports this module): GenCacheFacts.v holds gen_split_seed, pinned by C01 too
+
+    run.coverage["gen_facts"] = c13.gen()
     run.rule = (
         "random well-formed models (parameters, initial-assignment parameters/variables, derived chains, derived on reactions, "
         "reactions with numeric/named/computed coefficients, multi-output MockSurrogates with stoichiometries, scalar data, time) "
@@ -538,7 +638,10 @@ def check(run: Run) -> None:
         "`time` read by exactly one kind of component (only a surrogate / only a computed coefficient / only a data-dependent derived "
         "quantity) or by none; per model one multi-row frame for the time-course forms (plateaus = same state at different times, "
         "non-monotone and repeated time labels), every row judged at its own (state, time); integer-valued polynomial functions so "
-        "all numbers are exact; non-trivial = model has >= 3 components; distinct by (model, state, key order)"
+        "all numbers are exact; non-trivial = model has >= 3 components; distinct by (model, state, key order); own stream "
+        "'c01-data': models with data sets and derived quantities computed from data sets and parameters only (chained, next to "
+        "quantities reading data and state, assignments reading data), queried, then Model.update_data and nothing else, queried "
+        "again at the default and a supplied state (judged against the description holding the new data)"
     )
     run.check_proofs(PROOF_AREA, PROPS)
     run.assumptions += [
@@ -552,6 +655,10 @@ def check(run: Run) -> None:
     EXTRA["c01pub"].clear()
     EXTRA["c01tc"].clear()
     cases, keys, dist = run_models(run, rng, 1500 if thorough else 250, ia_bias=0.25, tag="c01")
+    cases_d, keys_d, dist_d = run_data_updates(run, 300 if thorough else 60)
+    dist["data_set_updates"] = dist_d
+    cases += cases_d
+    keys += keys_d
     run.coverage["input_distribution"] = dist
     files = {f"c01_{k:04d}": corr_file(chunk) for k, chunk in enumerate(common.chunks(cases, 150))}
     keymap = {f"c01_{k:04d}": keys[k * 150:(k + 1) * 150] for k in range(len(files))}
@@ -584,6 +691,15 @@ def replay(rep: dict) -> int:
         print("nothing to replay: ", rep.get("what"))
         return 1
     desc = {k: [_tup(x) for x in v] for k, v in r["desc"].items()}
+    if r.get("kind") == "c01data":
+        rounds = [[tuple(u) for u in ups] for ups in r["rounds"]]
+        points = [(t, None if s is None else {int(k): v for k, v in s.items()}) for t, s in r["points"]]
+        try:
+            bad = seq_data_updates(desc, rounds, points, [tuple(x) for x in r["modes"]])[0]
+        except Exception as e:  # noqa: BLE001
+            bad = f"raised {type(e).__name__}: {e}"
+        print(bad or "property holds on this input")
+        return 1 if bad else 0
     if r.get("kind") == "c01tc":
         rows = [(t, {int(k): v for k, v in s.items()}) for t, s in r["rows"]]
         try:
